@@ -46,6 +46,7 @@ const (
 	LElem                  // element Idx (absolute) of backing array Base (pointee non-struct)
 	LDeref                 // pointee of a first-class pointer Base to a non-struct type
 	LGlobal                // package-level variable
+	LGhost                 // ghost component Glob at key Base (Int-valued)
 )
 
 type Loc struct {
